@@ -1813,7 +1813,12 @@ func (m *Machine) ParseStates(states S) S {
 	}
 
 	if dups {
-		return slicesUniq(states)
+		// drop the unknown names as well as the duplicates
+		known := slicesFilter(states, func(name string, _ int) bool {
+			_, ok := seen[name]
+			return ok
+		})
+		return slicesUniq(known)
 	}
 	return slices.Collect(maps.Keys(seen))
 }
